@@ -10,6 +10,7 @@ import (
 	"go/ast"
 	"go/format"
 	"go/token"
+	"reflect"
 	"sort"
 	"strings"
 	"testing"
@@ -206,6 +207,84 @@ func check(t h.TB, c Case) {
 				if dsth.Dump(retry, dsth.DumpOpts{}) != refDump {
 					h.Fail(t, sub, cc, "goast: retry (%s resolver value) after a failure at call %d gives another tree than a failure-free run", []string{"same", "fresh"}[i], k)
 				}
+			}
+		}
+	}
+
+	// ---------- decoration of a package node and of an isolated declaration ----------
+	if c.Op == "" || c.Op == "decorate-package" {
+		base := gotypes.New(ck.Info.Uses)
+		roots := []func() ast.Node{
+			func() ast.Node { return &ast.Package{Name: "root", Files: ck.Files} },
+			func() ast.Node {
+				for _, d := range af.Decls {
+					if fd, ok := d.(*ast.FuncDecl); ok {
+						return fd
+					}
+				}
+				return nil
+			},
+		}
+		for ri, mk := range roots {
+			root := mk()
+			if root == nil || reflect.ValueOf(root).IsNil() {
+				continue
+			}
+			dry := &failIdent{inner: base}
+			if _, err := decorator.NewDecoratorWithImports(ck.Fset, rootPath, dry).DecorateNode(root); err != nil {
+				h.Fail(t, sub, c, "failure-free decoration of a %T failed: %v", root, err)
+			}
+			for k := 1; k <= dry.n; k++ {
+				if !want(k) {
+					continue
+				}
+				cc := c
+				cc.K, cc.Op = k, "decorate-package"
+				h.Eval("inject:decorate-node")
+				if k > 1 {
+					h.NonTrivial(sub, "dn", fmt.Sprint(ri, k), c.Root[c.Target])
+				}
+				var out dst.Node
+				var derr error
+				h.Guard(t, sub, cc, func() {
+					out, derr = decorator.NewDecoratorWithImports(ck.Fset, rootPath, &failIdent{inner: base, k: k}).DecorateNode(root)
+				})
+				if derr == nil || !errors.Is(derr, errInjected) || (out != nil && !reflect.ValueOf(out).IsNil()) {
+					h.Fail(t, sub, cc, "DecorateNode(%T): ResolveIdent call %d of %d failed, got (%v, %v)", root, k, dry.n, out != nil, derr)
+				}
+			}
+		}
+	}
+
+	// ---------- ParseFile of a source with a recoverable syntax error ----------
+	if (c.Op == "" || c.Op == "parsefile-broken") && !hasDot(af) {
+		broken := c.Root[c.Target] + "\nfunc broken( {\n"
+		acc := goast.WithResolver(simple.New(p.Names))
+		dry := &failIdent{inner: acc}
+		_, perr := decorator.NewDecoratorWithImports(token.NewFileSet(), rootPath, dry).ParseFile("b.go", broken, 0)
+		if perr == nil {
+			t.Fatalf("harness: the broken source parses")
+		}
+		for k := 1; k <= dry.n; k++ {
+			if !want(k) {
+				continue
+			}
+			cc := c
+			cc.K, cc.Op = k, "parsefile-broken"
+			h.Eval("inject:parsefile-broken")
+			if k > 1 {
+				h.NonTrivial(sub, "pb", fmt.Sprint(k), c.Root[c.Target])
+			}
+			var out *dst.File
+			var derr error
+			h.Guard(t, sub, cc, func() {
+				out, derr = decorator.NewDecoratorWithImports(token.NewFileSet(), rootPath, &failIdent{inner: acc, k: k}).ParseFile("b.go", broken, 0)
+			})
+			if derr == nil || !errors.Is(derr, errInjected) {
+				h.Fail(t, sub, cc, "ParseFile of a source with a syntax error: ResolveIdent call %d of %d failed, but the returned error does not wrap it: %v", k, dry.n, derr)
+			}
+			if out != nil {
+				h.Fail(t, sub, cc, "ParseFile returned a tree together with the resolver's error")
 			}
 		}
 	}
